@@ -40,7 +40,7 @@ Print Assumptions credentials_debug_is_constant.
 
 Theorem code_facts :
   LOG_REQUESTS_ALWAYS_SCRUBBED = true /\ SCRUB_FUNCTIONS_AS_MODELLED = true /\ SOURCE_DEBUG_HIDES_VALUE = true
-  /\ SNI_LOGGED_SCRUBBED = true.
+  /\ SNI_LOGGED_SCRUBBED = true /\ LOGGERS_DROP_TLS_HANDSHAKE_DUMPS = true.
 Proof. repeat split; exact eq_refl. Qed.
 Print Assumptions code_facts.
 
